@@ -86,6 +86,20 @@ CLAIMED = {
         "aliasing model is C15's. substitute_diminished_for_dominant is tied by correspondence only (the property promises "
         "well-formed numerals). Two defects repaired by fix: commits (f72d29c vii7, 5e2170b substitute aliasing).",
    design="§4 C08"),
+ "C09": dict(
+   text="value.determine is modelled over exact rationals with the float thresholds' exact dyadic values (regenerated from the "
+        "source), which is exactly the float function. Lean: determine_dotted / determine_tuplets (whole 80-value vocabulary, "
+        "kernel, on the doubles the constructors produce); near_base and near_dotted for EVERY rational within 1% of an undotted "
+        "/ exactly-two-thirds value (Mathlib linarith/norm_num in the proof file only); add/subtract inverse and duration sum over "
+        "Q; validBeat_iff: the total halving loop answers true exactly for 2^k (the structural recursion is the termination "
+        "argument), nan/inf false; meter predicate formulas. Tie A: base values, threshold chain with the tuple each branch "
+        "returns, multi-dot fingerprints, the doubles of dots(), tuplet ratios. Tie B: floats travel as exact fractions; "
+        "vocabulary, perturbations, doubles adjacent to every threshold at every scale, random doubles; every meter call under a "
+        "2 s alarm.",
+   note=TRUST + "Partial: IEEE rounding of add/subtract and of dots() is tied by the correspondence (relative 1e-12 / exact "
+        "equality on the vocabulary), not proved; integers beyond 2^53 as beat units are outside the explored domain. Two defects "
+        "repaired by fix: commits (4362669, c717ce2).",
+   design="§4 C09"),
  "C04": dict(
    text="Whole-table kernel evaluation (decide +kernel) of everything the statement says about each of the 30 keys, the 15 "
         "relative couples, the key objects and signature<->key inversion; unbounded theorems for rejections (any string, any "
